@@ -223,7 +223,39 @@ CUSTOM = {
 }
 
 
+class FaultyPolicy:
+    """wraps whatever pruning predicate the zone has; raises once when armed"""
+
+    def __init__(self, inner, flag):
+        self.inner = inner
+        self.flag = flag
+
+    def __call__(self, zone, version):
+        if self.flag["armed"]:
+            self.flag["armed"] = False
+            self.flag["fired"] = True
+            raise Boom()
+        return self.inner(zone, version)
+
+
+def wrap_policy(zone, flag):
+    """(re)install the fault wrapper around the zone's current pruning predicate"""
+    pol = zone._pruning_policy
+    if not isinstance(pol, FaultyPolicy):
+        zone._pruning_policy = FaultyPolicy(pol, flag)
+
+
 # ----------------------------------------------------------------------------- writing
+def spell(n, relativize, sp):
+    """owner name n ("@" = apex) as the caller spells it: "own" = in the zone's relativity,
+    "other" = the other one (absolute name for a relativized zone and vice versa), "str" = text"""
+    if sp == "other":
+        return owner(n, not relativize)
+    if sp == "str":
+        return n
+    return owner(n, relativize)
+
+
 def put(txn, name, rdtype, rdatas, form, kept):
     """store the rdataset (rdtype, TTL, rdatas) at name through the given argument form;
     the Rdataset / RRset objects handed to the transaction are kept by the caller"""
@@ -234,6 +266,8 @@ def put(txn, name, rdtype, rdatas, form, kept):
         kept.append(rds)
         txn.replace(name, rds)
     elif form == "rrset":
+        if isinstance(name, str):   # an RRset needs a Name object: spell it relative
+            name = dns.name.empty if name == "@" else dns.name.from_text(name, None)
         rrs = dns.rrset.RRset(name, IN, rdtype)
         for rd in rdatas:
             rrs.add(rd, TTL)
@@ -245,7 +279,7 @@ def put(txn, name, rdtype, rdatas, form, kept):
             txn.add(name, TTL, rd)
 
 
-def stage(txn, target, relativize, form="rdata", kept=None):
+def stage(txn, target, relativize, form="rdata", kept=None, sp="own"):
     """make the write transaction hold exactly the abstract content `target`
     ([serial, items]); always touches something, so the transaction counts as changed.
     Only rdatasets that differ are written (an item that stays is NOT rewritten: a
@@ -254,7 +288,7 @@ def stage(txn, target, relativize, form="rdata", kept=None):
         kept = []
     cur = abstract(list(txn.iterate_rdatasets()), relativize)
     serial, items = target["serial"], sorted(list(i) for i in target["items"])
-    apex = owner("@", relativize)
+    apex = spell("@", relativize, sp)
     if cur[0] != serial:
         put(txn, apex, SOA, [soa_rdata(serial)], form, kept)
     # touch: re-put the apex NS (identical) - a change that changes nothing
@@ -265,22 +299,22 @@ def stage(txn, target, relativize, form="rdata", kept=None):
         have_a = [k for (m, k) in have if m == n and k != 0]
         if want_a != have_a:
             if not want_a:
-                txn.delete(owner(n, relativize), A)
+                txn.delete(spell(n, relativize, sp), A)
             elif form == "rdata":
                 for k in have_a:
                     if k not in want_a:
-                        txn.delete(owner(n, relativize), a_rdata(k))
+                        txn.delete(spell(n, relativize, sp), a_rdata(k))
                 for k in want_a:
                     if k not in have_a:
-                        txn.add(owner(n, relativize), TTL, a_rdata(k))
+                        txn.add(spell(n, relativize, sp), TTL, a_rdata(k))
             else:
-                put(txn, owner(n, relativize), A, [a_rdata(k) for k in want_a], form, kept)
+                put(txn, spell(n, relativize, sp), A, [a_rdata(k) for k in want_a], form, kept)
         want_ns = [n, 0] in items
         have_ns = [n, 0] in have
         if want_ns and not have_ns:
-            put(txn, owner(n, relativize), NS, [NS_D], form, kept)
+            put(txn, spell(n, relativize, sp), NS, [NS_D], form, kept)
         elif have_ns and not want_ns:
-            txn.delete(owner(n, relativize), NS)
+            txn.delete(spell(n, relativize, sp), NS)
 
 
 def scribble(objs, how):
@@ -439,6 +473,10 @@ def replay(script, zclass, relativize, tid):
     trace = {"tid": tid, "zclass": zclass, "rel": relativize, "ev": []}
     ev = trace["ev"]
     zone, released = new_zone(zclass, relativize, init)  # released: objects handed to write transactions that have ended
+    flag = {"armed": False, "fired": False}
+    wrap_policy(zone, flag)
+    last_wtxn = None  # the most recent write transaction that has ended
+    wedged = False    # a commit failed inside the library's prune pass: zone._write_txn is still set
     handles = {}    # driver handle number -> open read transaction
     ridmap = {}     # the script's handle label -> driver handle number of its latest open attempt
     wtxn = None
@@ -506,6 +544,21 @@ def replay(script, zclass, relativize, tid):
             # the script uses a handle label that none of its steps opened (a generator defect)
             res, exc = "err", "NoSuchHandle"
             rec["op"] = "no-handle"
+        elif op in ("begin", "stage", "end") and wedged:
+            continue  # after a failed commit the library admits no writer (C12's subject): not a step
+        elif op == "reuse" and (last_wtxn is None or wtxn is not None):
+            continue  # no write transaction has ended yet (or another one is open): nothing to re-use
+        elif op == "reuse":
+            w = last_wtxn
+            nz = owner("zz", relativize)
+            attempts = [("add", lambda: w.add(nz, TTL, a_rdata(9))), ("replace", lambda: w.replace(nz, TTL, a_rdata(9))),
+                        ("delete", lambda: w.delete(owner("@", relativize))), ("get", lambda: w.get(owner("@", relativize), SOA)),
+                        ("commit", w.commit), ("rollback", w.rollback)]
+            rec["what"] = [a[0] for a in attempts]
+            outs = [call(a[1]) for a in attempts]
+            rec["raised"] = [o[0] == "err" for o in outs]
+            rec["excs"] = [o[1] for o in outs]
+            res, exc = "err", ""
         elif op in ("stage", "end") and wtxn is None:
             res, exc = "err", "NoWriter"
             rec["op"] = "no-writer"
@@ -523,9 +576,17 @@ def replay(script, zclass, relativize, tid):
                     wtxn.__enter__()
         elif op == "stage":
             rec["content"] = [e["content"]["serial"], sorted(list(x) for x in e["content"]["items"])]
-            res, exc, _ = call(lambda: stage(wtxn, e["content"], relativize, e.get("form", "rdata"), kept))
+            res, exc, _ = call(lambda: stage(wtxn, e["content"], relativize, e.get("form", "rdata"), kept, e.get("sp", "own")))
         elif op == "end":
-            res, exc, _ = end_writer(wtxn, e["how"])
+            if e["how"] == "commit_fault":
+                flag["armed"], flag["fired"] = True, False
+                res, exc, _ = call(wtxn.commit)
+                flag["armed"] = False
+                rec["fired"] = flag["fired"]
+                wedged = flag["fired"] and zone._write_txn is not None
+            else:
+                res, exc, _ = end_writer(wtxn, e["how"])
+            last_wtxn = wtxn
             wtxn = None
             released += kept
             kept = []
@@ -535,11 +596,14 @@ def replay(script, zclass, relativize, tid):
             res, exc = "ok", ""
         elif op == "setmax":
             res, exc, _ = call(lambda: zone.set_max_versions(e["n"]))
+            wrap_policy(zone, flag)
         elif op == "setmax_none":
             res, exc, _ = call(lambda: zone.set_max_versions(None))
+            wrap_policy(zone, flag)
         elif op == "setpolicy":
             pol = None if e["p"] == "default" else CUSTOM[e["p"]]
             res, exc, _ = call(lambda: zone.set_pruning_policy(pol))
+            wrap_policy(zone, flag)
         elif op == "mutate":
             txn = handles[rid]
             rec["vkind"] = type(txn.version).__name__
@@ -578,13 +642,19 @@ def random_script(seed, steps, fresh):
         newest = 2
     open_rids = {}   # rid -> True (asked to open; may have been refused - then close is skipped by the model too)
     writer = None    # None | "clean" | "dirty"
+    faulted = False  # a commit was made with a fault armed: the walk writes no more
+    ended = False    # some write transaction has ended
     for _ in range(steps):
         choices = []
         free = [r for r in (1, 2, 3, 4) if r not in open_rids]
-        if writer is None:
+        if writer is None and not faulted:
             choices += [("begin", 4)]
-        else:
+        elif writer is not None:
             choices += [("stage", 5), ("commit", 4 if writer == "dirty" else 1), ("rollback", 1)]
+            if writer == "dirty":
+                choices += [("commitfault", 0.4)]
+        if ended and writer is None:
+            choices += [("reuse", 0.5)]
         if free:
             choices += [("open", 2), ("openid", 4), ("openserial", 1), ("openboth", 0.2)]
         if open_rids:
@@ -600,16 +670,26 @@ def random_script(seed, steps, fresh):
             script.append({"op": "begin", "repl": repl})
             writer = "clean"
         elif op == "stage":
-            script.append({"op": "stage", "content": rand_content(rnd), "form": rnd.choice(["rdata", "rdataset", "rdataset", "rrset"])})
+            script.append({"op": "stage", "content": rand_content(rnd), "form": rnd.choice(["rdata", "rdataset", "rdataset", "rrset"]),
+                           "sp": rnd.choice(["own", "own", "other", "str"])})
             writer = "dirty"
         elif op == "commit":
             script.append({"op": "end", "how": rnd.choice(["commit", "exit"])})
             if writer == "dirty":
                 newest += 1
             writer = None
+            ended = True
         elif op == "rollback":
             script.append({"op": "end", "how": rnd.choice(["rollback", "raise"])})
             writer = None
+            ended = True
+        elif op == "commitfault":
+            script.append({"op": "end", "how": "commit_fault"})
+            newest += 1
+            writer = None
+            faulted = ended = True
+        elif op == "reuse":
+            script.append({"op": "reuse"})
         elif op == "open":
             script.append({"op": "open", "how": "latest", "rid": free[0], "arg": 0})
             open_rids[free[0]] = True
